@@ -22,7 +22,8 @@ EXPLANATION = (
     'new node\'s prev/next are set, the neighbours\' next/prev are pointed back at it on every path; '
     '(LINK.2) on every path of remove that found the element, both neighbours are relinked around it; '
     '(UAF.1) no dereference of a node variable after it was handed to the dispose helper.  The sorted-map '
-    'behaviour of the splay tree (search order, in-order list, lower bound) is NOT decided.')
+    'behaviour of the splay tree (search order, in-order list, lower bound) is NOT decided.'
+    ' Rounds 8-9: (GRD.4) a string comparator that scans for itself looks at the bytes where one string ended; (TAB.3) set_next / set_prev return their own link, and a program-defined replacement of the comparison primitive is analysis-broken.')
 ASSUMPTIONS = ['clang 14 CFG', 'xfree releases the node; the cleanup callback only releases what the element owns']
 
 
